@@ -24,10 +24,8 @@ while IFS= read -r __line; do
     "$__fn" 2>/dev/null </dev/null
     __rc=$?
     printf '%s\x1e' "$__rc"
-    __first=1
     for __r in "${COMPREPLY[@]}"; do
-        if [[ $__first == 1 ]]; then __first=0; else printf '\x1f'; fi
-        printf '%s' "$__r"
+        printf '%s\x1f' "$__r"          # terminator, not separator: an empty candidate stays visible
     done
     printf '\x1e'
     __first=1
